@@ -115,12 +115,44 @@ def one_export(t, m, nodes, attrs, start, ml, dname, opts, ctx):
                 why = "read() and import_() disagree"
             elif not c10._all_instances(r1, cls):
                 why = "imported nodes have the wrong class"
+    if why is None and not opts:
+        # one importer object, the same text twice; the first tree is edited in place in between
+        want = ref_tree(m, attrs, start, 1, ml, aref, cref)
+        imp = JsonImporter()
+        r1 = imp.import_(got)
+        _scribble(r1)
+        r2 = imp.import_(got)
+        r3 = imp.read(io.StringIO(got))
+        t.c["importer_reuse_checks"] += 1
+        if not tree_eq(tree_of(r2), want) or not tree_eq(tree_of(r3), want):
+            why = "a re-used JsonImporter returns a tree that shares / reflects edits made to an earlier import of the same text"
     if why:
         c = dict(ctx)
         c.update({"engine": "E2", "module": MOD, "start": start, "maxlevel": ml, "dictexporter": dname, "options": opts,
                   "expected": exp_text, "observed": got})
         t.violation("C11: " + why, c)
     return why is None
+
+
+def _scribble(node):
+    """Edit every container-valued attribute of an imported tree in place."""
+    for k, v in list(vars(node).items()):
+        if k in c10.BOOK:
+            continue
+        _scribble_value(v)
+    for c in node.children:
+        _scribble(c)
+
+
+def _scribble_value(v):
+    if isinstance(v, list):
+        for x in v:
+            _scribble_value(x)
+        v.append("scribble")
+    elif isinstance(v, dict):
+        for x in list(v.values()):
+            _scribble_value(x)
+        v["scribble"] = 1
 
 
 def check_tree(t, shape, assign, pairs):
@@ -192,5 +224,5 @@ def run(tier):
                 "non-empty attributes or more than one node" % (npart, len(VALUES), nfull, len(OPTIONS)),
         "bounds": {"full_upto": nfull, "max_nodes": npart, "trees": len(items)},
     }
-    return {"tally": t, "coverage": cov, "guards": ("nontrivial", "imports", "config_pairs"),
+    return {"tally": t, "coverage": cov, "guards": ("nontrivial", "imports", "config_pairs", "importer_reuse_checks"),
             "assumptions": ["JSON value domain of %d dictionaries; NaN/Infinity are not JSON and excluded" % len(VALUES)]}
